@@ -46,11 +46,12 @@ Definition rule_unusable (c : ccfg) (r : rule) : bool :=
               | _ => false end
   end.
 
+(* an entry of relatedResources that must be refused: a null entry is one more such shape *)
+Definition entry_bad (pn : bool) (parent : json) (x : option rule) : bool :=
+  match x with None => true | Some r => rule_bad pn parent r end.
+
 Definition some_rules (rules : list (option rule)) : list rule :=
   flat_map (fun x => match x with Some r => [r] | None => [] end) rules.
-
-Definition has_null_rule (rules : list (option rule)) : bool :=
-  existsb (fun x => match x with None => true | Some _ => false end) rules.
 
 (* the parent is of the scope the controller declares *)
 Definition scope_ok (c : ccfg) (parent : json) : bool :=
@@ -76,7 +77,7 @@ Definition C15_related_exact (c : ccfg) (k : cache) (rules : list (option rule))
 (* ---------- C15_invalid_rule_is_error ---------- *)
 Definition C15_invalid_rule_is_error (c : ccfg) (parent : json) (rules : list (option rule))
            (evs : list ev) (res : sync_result) : bool :=
-  if existsb (rule_bad (p_namespaced c) parent) (some_rules rules)
+  if existsb (entry_bad (p_namespaced c) parent) rules
   then match hook_events evs with
        | [] => match res with SDone => match evs with [] => true | _ => false end | _ => true end
        | _ => false
